@@ -19,6 +19,9 @@ Regular expressions are a parameter: `sat cid v` is the verdict of constraint nu
 (the harness evaluates the real `regexp.MatchString` and ships the table).
 
 Core Lean only (linked into the drivers).
+
+Constants that mirror literals of the Go source are named defs (`@[reducible]`), tied to the regenerated
+`Gen/Consts.lean` by `Tie/Consts*.lean` (added by the owner of extract/; behaviour unchanged).
 -/
 namespace Rivaas.Radix
 open Rivaas.Route
@@ -178,9 +181,12 @@ deriving DecidableEq, Repr
 
 def Ctx.fresh : Ctx := ⟨[], []⟩
 
+/-- number of inline parameter slots (`paramKeys [8]string`, `paramIdx < 8`) -/
+@[reducible] def inlineSlots : Nat := 8
+
 /-- the parameter write of `getRoute` -/
 def Ctx.push (c : Ctx) (k v : Bytes) : Ctx :=
-  if c.slots.length < 8 then { c with slots := c.slots ++ [(k, v)] }
+  if c.slots.length < inlineSlots then { c with slots := c.slots ++ [(k, v)] }
   else { c with over := SMap.set k v c.over }
 
 def slotGet (k : Bytes) : List (Bytes × Bytes) → Option Bytes
